@@ -18,13 +18,17 @@ from harness.common.rng import Rng
 from harness.common import sim
 
 PROP = "C25"
-LEAN_MODULES = ["LunaVerif.Props.C25", "LunaVerif.Lemmas.C25Tx12", "LunaVerif.Lemmas.C25TxIo", "LunaVerif.Props.C25Tx"]
+LEAN_MODULES = ["LunaVerif.Props.C25", "LunaVerif.Lemmas.C25Tx12", "LunaVerif.Lemmas.C25TxIo", "LunaVerif.Props.C25Tx",
+                "LunaVerif.Lemmas.C25RxFront", "LunaVerif.Lemmas.C25RxBack", "LunaVerif.Props.C25Rx"]
 DRIVER = "Driver/C25.lean"
 REQUIRED_THEOREMS = ["decode_encode", "no_seven_ones_on_wire", "stuff_error_detected", "never_drives_in_nondriving",
                      "pulls_follow_requests",
                      # cycle-level transmit chain (Model/Phy/FsTx.lean)
                      "tx_pipeline_emits_encode", "each_byte_accepted_once", "packet12", "io_packet", "loopIo_split",
-                     "idle_stays_quiescent", "reset_quiescent", "no_ready_without_valid"]
+                     "idle_stays_quiescent", "reset_quiescent", "no_ready_without_valid",
+                     # cycle-level receive chain (Model/Phy/FsRx.lean)
+                     "rx_pipeline_decodes_encode", "stuff_error_detected_cycle", "run_split", "front_blocks",
+                     "back_blocks", "unstuff_run", "shifter_bytes", "lock", "reset_idle", "idle_holds_error"]
 RULE = ("tx: packets of 1..70 random / all-ones / stuffing-boundary bytes, tx_data garbage between packets, random "
         "inter-packet gaps, the producer holds each byte until tx_ready; the D+/D- waveform is compared bit by bit "
         "with the Lean `encode` and with an independent Python encoder.  txc/txp: the cycle-level Lean model of the "
@@ -50,14 +54,26 @@ ASSUMPTIONS = [
     "low for at least five bit times after the last data bit of the previous packet (i.e. until its EOP is out); "
     "TxPipeline only looks at tx_valid when its shifter runs empty, a shorter gap merges two packets",
     "received packets are separated by at least 4 bit times of idle (J)",
+    "receive theorems: NOMINAL rate, every line symbol sampled exactly four times in the usb_io domain, both lines "
+    "changing in the same sample (no SE1, no glitches), any of the four sampling phases against the receiver's idle bit "
+    "clock; the path starts in an idle state `idleSt c e` (bus idle for 15 cycles after reset, or 11 idle cycles after "
+    "the previous packet; c = free-running bit-stuff counter 0..6, e = error latch of the previous packet, both "
+    "arbitrary); the two AsyncFIFOBuffered clock-domain crossings are not modelled: the theorems are about what is "
+    "written into them (each FIFO taken as an in-order queue with unbounded delay)",
 ]
 PARTIAL = ("Transmit direction fully in theorems over the cycle-level model that is co-simulated against the gateware "
            "(tx_pipeline_emits_encode, each_byte_accepted_once, for all byte lists, all four clock phases, any number of "
            "packets), as are the line code (decode_encode, no_seven_ones_on_wire, stuff_error_detected) and the op-mode / "
-           "pull-up / pull-down glue.  NOT in a theorem (co-simulation only): the receive chain "
-           "(RxNRZIDecoder/RxPacketDetect/RxBitstuffRemover/RxShifter have no cycle-level Lean model; the bytes they "
-           "deliver are compared with the Lean `decode`), incl. the 48 MHz clock/data recovery under sampling phase and "
-           "+-0.25% drift (runtime timing).")
+           "pull-up / pull-down glue.  Receive direction: the cycle-level model FsRx of the whole 48 MHz receive chain "
+           "(co-simulated against the real RxPipeline on 21 internal signals) is proved to turn the nominal-rate waveform "
+           "of `encode bytes`, in any sampling phase, into exactly start, the bytes in order, end at the write ports of "
+           "the clock-domain crossing with the latched error low (rx_pipeline_decodes_encode), and to latch the error for "
+           "seven consecutive 1s (stuff_error_detected_cycle).  NOT in a theorem (co-simulation only): (1) the 48 MHz "
+           "clock/data recovery when the transmitter's bit clock is off-nominal (+-0.25% drift, jitter: runtime timing) -- "
+           "the theorems assume exactly four samples per bit; (2) Amaranth's two AsyncFIFOBuffered (Gray counters, 2-FF "
+           "synchronizers, output register) between the write ports and rx_data/rx_valid/rx_active in the 12 MHz domain: "
+           "taken as in-order queues; that they never fill and that flags and bytes keep their relative order across the "
+           "two FIFOs is checked by the rx cases on the real GatewarePHY only.")
 
 SE0, J, K = 0, 1, 2
 
